@@ -290,3 +290,9 @@ package dns
 //@ extern crypto/sha1.New
 //@   ensures ret0 != nil
 //@   pure
+
+// strings.ReplaceAll(s, `\`, `\\`): every backslash doubled, every other octet unchanged, so the result reads back
+// as exactly one escape unit per octet of s (trusted; only this instance is specified)
+//@ extern strings.ReplaceAll
+//@   ensures doubled: len(old) == 1 && old[0] == '\\' && len(new) == 2 && new[0] == '\\' && new[1] == '\\' ==> unitsfrom(ret0, 0) == len(s)
+//@   pure
